@@ -289,6 +289,25 @@ func raceChild(scenario string, seed uint64, g, procs int) string {
 				progs = append(progs, prog{fl, append(lock, byte(op))})
 			}
 		}
+		// small-number arithmetic whose results are then compared byte for byte (victims of any shared table of number
+		// encodings), placed FIRST so that their sequential verdicts are taken before anything else has run …
+		var head []prog
+		for n := 2; n <= 16; n++ {
+			for _, fl := range []uint64{0, uint64(fAfterGenesis)} {
+				head = append(head, prog{fl, []byte{0x51, byte(0x50 + n - 1), 0x93, byte(0x50 + n), 0x87}})             // 1 (n-1) ADD n EQUAL
+				head = append(head, prog{fl, []byte{byte(0x50 + n), 0x8c, 0x8b, byte(0x50 + n), 0x87}})                 // n 1SUB 1ADD n EQUAL
+				head = append(head, prog{fl, []byte{byte(0x50 + n), 0x76, 0x82, 0x51, 0x88, byte(0x50 + n), 0x87}})    // n DUP SIZE 1 EQUALVERIFY n EQUAL
+			}
+		}
+		progs = append(head, progs...)
+		// … and operations that widen or extend small numbers in place if their buffers are shared, placed LAST
+		for v := 1; v <= 16; v++ {
+			for _, fl := range []uint64{0, uint64(fAfterGenesis)} {
+				progs = append(progs, prog{fl, []byte{byte(0x50 + v), 0x54, 0x80, 0x75, 0x51}})                           // v 4 NUM2BIN DROP 1
+				progs = append(progs, prog{fl, []byte{0x51, byte(0x50 + v - v/16), 0x93, 0x58, 0x80, 0x75, 0x51}})        // 1 v ADD 8 NUM2BIN DROP 1
+				progs = append(progs, prog{fl, []byte{byte(0x50 + v), 0x01, 0xff, 0x7e, 0x75, 0x51}})                    // v <ff> CAT DROP 1
+			}
+		}
 		show := func(p prog) string {
 			res := implExec(p.flags, nil, p.lock, "-", 0, 0, 1)
 			last := ""
